@@ -37,43 +37,52 @@ def R(arch):
     return ARCH_REGS[arch]
 
 # ------------------------------------------------------------------ x86_64 shapes
-def x86_fp_func(name, rng, npush=None, alloc=None, early=False, noreturn=False):
+def x86_fp_func(name, rng, npush=None, alloc=None, early=False, noreturn=False, prepush=0):
+    """prepush: callee-saved registers pushed BEFORE the frame record is set up (push rbx; push rbp; mov rbp,rsp -
+    hand-written assembly, some JITs and -fno-omit-frame-pointer with shrink wrapping): rbp then points at the slot
+    with the caller's rbp, but the return address is not at [rbp+8]: CFA = rbp+16+8*prepush"""
     r = R("x86")
     npush = rng.range(0, 3) if npush is None else npush
     alloc = 8 * rng.range(0, 6) if alloc is None else alloc
+    k = 8 * prepush
     b = []
     off = 0
-    b.append(Boundary(off, 0, dict(cfa=("r", r["sp"], 8), fp=("s",), ra=("o", -8)), kind="entry")); off += 1      # push rbp
-    b.append(Boundary(off, 8, dict(cfa=("r", r["sp"], 16), fp=("o", -16), ra=("o", -8)), saved={"fp": -16}, kind="prologue")); off += 3   # mov rbp,rsp
-    body_row = dict(cfa=("r", r["fp"], 16), fp=("o", -16), ra=("o", -8))
-    spd = 8
+    for i in range(prepush):
+        b.append(Boundary(off, 8 * i, dict(cfa=("r", r["sp"], 8 + 8 * i), fp=("s",), ra=("o", -8)), kind="entry" if i == 0 else "prologue")); off += 1
+    b.append(Boundary(off, k, dict(cfa=("r", r["sp"], 8 + k), fp=("s",), ra=("o", -8)), kind="prologue" if prepush else "entry")); off += 1      # push rbp
+    slot = -16 - k
+    b.append(Boundary(off, 8 + k, dict(cfa=("r", r["sp"], 16 + k), fp=("o", slot), ra=("o", -8)), saved={"fp": slot}, kind="prologue")); off += 3   # mov rbp,rsp
+    body_row = dict(cfa=("r", r["fp"], 16 + k), fp=("o", slot), ra=("o", -8))
+    spd = 8 + k
     for i in range(npush):
-        b.append(Boundary(off, spd, body_row, fp_set=-16, saved={"fp": -16}, kind="prologue")); off += 2; spd += 8
+        b.append(Boundary(off, spd, body_row, fp_set=slot, saved={"fp": slot}, kind="prologue")); off += 2; spd += 8
     if alloc:
-        b.append(Boundary(off, spd, body_row, fp_set=-16, saved={"fp": -16}, kind="prologue")); off += 4; spd += alloc
+        b.append(Boundary(off, spd, body_row, fp_set=slot, saved={"fp": slot}, kind="prologue")); off += 4; spd += alloc
     # body with call sites
     ncalls = rng.range(1, 3)
     for i in range(ncalls):
-        b.append(Boundary(off, spd, body_row, fp_set=-16, saved={"fp": -16}, call=off + 5, kind="body")); off += 5
-        b.append(Boundary(off, spd, body_row, fp_set=-16, saved={"fp": -16}, kind="body")); off += rng.range(1, 6)
+        b.append(Boundary(off, spd, body_row, fp_set=slot, saved={"fp": slot}, call=off + 5, kind="body")); off += 5
+        b.append(Boundary(off, spd, body_row, fp_set=slot, saved={"fp": slot}, kind="body")); off += rng.range(1, 6)
     def epilogue(off, spd):
         out = []
         if alloc:
-            out.append(Boundary(off, spd, body_row, fp_set=-16, saved={"fp": -16}, kind="epilogue")); off += 4; spd -= alloc
+            out.append(Boundary(off, spd, body_row, fp_set=slot, saved={"fp": slot}, kind="epilogue")); off += 4; spd -= alloc
         for i in range(npush):
-            out.append(Boundary(off, spd, body_row, fp_set=-16, saved={"fp": -16}, kind="epilogue")); off += 2; spd -= 8
-        out.append(Boundary(off, spd, body_row, fp_set=-16, saved={"fp": -16}, kind="epilogue")); off += 1          # pop rbp
+            out.append(Boundary(off, spd, body_row, fp_set=slot, saved={"fp": slot}, kind="epilogue")); off += 2; spd -= 8
+        out.append(Boundary(off, spd, body_row, fp_set=slot, saved={"fp": slot}, kind="epilogue")); off += 1          # pop rbp
+        for i in range(prepush):
+            out.append(Boundary(off, k - 8 * i, dict(cfa=("r", r["sp"], 8 + k - 8 * i), fp=("s",), ra=("o", -8)), kind="epilogue")); off += 1   # pop rbx
         out.append(Boundary(off, 0, dict(cfa=("r", r["sp"], 8), fp=("s",), ra=("o", -8)), kind="epilogue")); off += 1   # ret
         return out, off
     if early:
         e, off = epilogue(off, spd); b += e
-        b.append(Boundary(off, spd, body_row, fp_set=-16, saved={"fp": -16}, call=off + 5, kind="body")); off += 5
-        b.append(Boundary(off, spd, body_row, fp_set=-16, saved={"fp": -16}, kind="body")); off += 2
+        b.append(Boundary(off, spd, body_row, fp_set=slot, saved={"fp": slot}, call=off + 5, kind="body")); off += 5
+        b.append(Boundary(off, spd, body_row, fp_set=slot, saved={"fp": slot}, kind="body")); off += 2
     if noreturn:
-        b.append(Boundary(off, spd, body_row, fp_set=-16, saved={"fp": -16}, call=off + 5, kind="tailcall")); off += 5
+        b.append(Boundary(off, spd, body_row, fp_set=slot, saved={"fp": slot}, call=off + 5, kind="tailcall")); off += 5
     else:
         e, off = epilogue(off, spd); b += e
-    return Func(name, "fp", b, off)
+    return Func(name, "latefp" if prepush else "fp", b, off)
 
 def x86_frameless_func(name, rng, npush=None, alloc=None, early=False, noreturn=False, bp_first=False):
     r = R("x86")
@@ -223,6 +232,8 @@ def make_program(rng, arch, nfuncs=8):
                 f = x86_frameless_func("f%d" % i, rng, early=rng.chance(1, 4), noreturn=rng.chance(1, 6))
             else:
                 f = x86_leaf_func("f%d" % i, rng)
+            if i == nfuncs - 3:
+                f = x86_fp_func("f%d" % i, rng, prepush=rng.range(1, 2))
             if i >= nfuncs - 2:
                 # two functions with a frame around the limits of the compressed rules (i16 / u16 slots of 8 bytes):
                 # push rbp; [push]; sub rsp, N   with rbp's slot 256 KiB and more above rsp
